@@ -85,11 +85,11 @@ def events(seed, full=True):
               'set_index', 'iter_group', 'iter_group-list', 'iter_group-list-grow', 'columns-static', 'deepcopy-grow', 'to_frame_go-grow'):
         ev.append(('derive', d))
     # --- reads
-    for r in ('values', 'shape', 'columns.values', 'dtypes', 'loc[last-col]'):
+    for r in ('values', 'shape', 'columns.values', 'dtypes', 'loc[last-col]', 'loc[:, slice]'):
         ev.append(('read', r))
     if not full:
         # the quick tier keeps every growth call and fault, the derivations that can share state, and two reads
-        keep = {'iter_group-list', 'iter_group-list-grow', 'drop.iloc[rows]', 'to_frame', 'to_frame_go', 'iloc[:, :]', 'rename', 'relabel', 'sort_columns', 'columns-static', 'to_frame_go-grow', 'deepcopy-grow', 'values', 'columns.values'}
+        keep = {'loc[:, slice]', 'iter_group-list', 'iter_group-list-grow', 'drop.iloc[rows]', 'to_frame', 'to_frame_go', 'iloc[:, :]', 'rename', 'relabel', 'sort_columns', 'columns-static', 'to_frame_go-grow', 'deepcopy-grow', 'values', 'columns.values'}
         ev = [e for e in ev if e[0] not in ('derive', 'read') or e[1] in keep]
         ev = [e for e in ev if e not in (('set', L[2], 'frame'), ('set', L[2], 'array-2d'), ('extend', 'frame-empty', ()), ('set', L[2], 'list'))]
     return ev
@@ -353,6 +353,18 @@ def run_case(case, ctx):
                         good = len(f.columns.values) == len(model.labels)
                     elif r == 'dtypes':
                         good = len(f.dtypes) == len(model.labels)
+                    elif r == 'loc[:, slice]':
+                        # a slice / partial label key as the first read after growth (label slices and hierarchy subtrees are mapped without the label array)
+                        if not model.labels:
+                            continue
+                        if isinstance(model.labels[-1], tuple):
+                            want = [j for j, l in enumerate(model.labels) if l[0] == model.labels[-1][0]]
+                            sub = f.loc[:, sf.HLoc[model.labels[-1][0]]]
+                        else:
+                            want = list(range(len(model.labels)))
+                            sub = f.loc[:, model.labels[0]:model.labels[-1]]
+                        sub = sub if isinstance(sub, sf.Frame) else sub.to_frame()
+                        good = sub.shape == (3, len(want)) and all(all(veq(x, y) for x, y in zip(c_, model.cols[j])) for c_, j in zip(columns_of(sub), want))
                     else:
                         if not model.labels:
                             continue
